@@ -398,6 +398,35 @@ def repo_test_traces(tag):
             pass
 
 
+def sample_traces(tag, count, seed):
+    """Random histories of the repository's gzip sample (unmodified client code) under the recorder."""
+    import subprocess
+    import tempfile
+    repo = os.environ.get('FBV_REPO', '/repo')
+    fd, out = tempfile.mkstemp(prefix='fbv_gz_', suffix='.ndjson', dir=runner_scratch())
+    os.close(fd)
+    try:
+        py = '/venv/bin/python' if os.path.exists('/venv/bin/python') else sys.executable
+        env = dict(os.environ, PYTHONDONTWRITEBYTECODE='1', PYTHONPATH=runner.VERIF + ':' + repo)
+        p = subprocess.run([py, '-m', 'harness.samples_driver', out, str(count), str(seed)], cwd=runner.VERIF, env=env,
+                           stdout=subprocess.PIPE, stderr=subprocess.STDOUT, text=True, timeout=1800)
+        traces = []
+        with open(out) as f:
+            for line in f:
+                t = json.loads(line)
+                t['id'] = 'sample-%s-%s' % (tag, t['id'])
+                if not t.get('unjudged') and t['events']:
+                    traces.append(t)
+        if not traces:
+            raise RuntimeError('samples driver produced no trace: %s' % p.stdout[-800:])
+        return traces
+    finally:
+        try:
+            os.remove(out)
+        except OSError:
+            pass
+
+
 def runner_scratch():
     from .sandbox import scratch_root
     return scratch_root()
@@ -454,6 +483,16 @@ def run_property(pid, tier, seed, scale=1.0):
         except Exception as x:      # noqa
             o = runner.Outcome()
             o.machinery = [('repotests', repr(x)[:1500])]
+            outs.append(o)
+    if P.get('samples'):
+        try:
+            n = int((P['samples'][0] if tier == 'quick' else P['samples'][1]) * scale)
+            st = sample_traces(pid, n, seed)
+            outs.append(runner.judge_traces(pid, st, set(P['owned']), tlc))
+            extra_cov = dict(extra_cov or {}, gzip_sample_histories=len(st))
+        except Exception as x:      # noqa
+            o = runner.Outcome()
+            o.machinery = [('samples', repr(x)[:1500])]
             outs.append(o)
     return _finish(pid, tier, seed, t0, outs, dstats, P['rule'], assume, extra_cov)
 
